@@ -183,7 +183,7 @@ impl Part for Udp {
     }
     fn runs(&self, tier: Tier) -> u64 {
         match tier {
-            Tier::Quick => 24_000,
+            Tier::Quick => 14_000,
             Tier::Thorough => 1_200_000,
         }
     }
@@ -499,7 +499,7 @@ impl Part for StreamPart {
     }
     fn runs(&self, tier: Tier) -> u64 {
         match tier {
-            Tier::Quick => 24_000,
+            Tier::Quick => 14_000,
             Tier::Thorough => 1_200_000,
         }
     }
